@@ -1,10 +1,11 @@
 package block
 
-// thorough: two notifications instead of one (wider settings -- a third idle interval, a longer
-// horizon, arbitrary durations for 3 productions -- were tried: they do not finish in 75 min)
+// thorough: a third idle interval (40 units).  Wider settings were tried and do not finish
+// within an hour on 16 cores: two notifications (60+ min), a horizon of 75..90 units with
+// three intervals (65+ min), arbitrary durations for 3 productions (90+ min).
 var (
 	zzC17SymbolicProductions = 2
-	zzC17Notifications       = 2
-	zzC17Intervals           = 2
+	zzC17Notifications       = 1
+	zzC17Intervals           = 3
 	zzC17Horizon             = int64(60)
 )
